@@ -4,10 +4,17 @@
 //!   `hp <mode> <amount> <n> <item>…`   mode 0 = `PackWidth::Exact`, 1 = `Additional`.
 //!       items: `0|1 fw w fh h fd d` Char|Ligature whose font answers width/height/depth
 //!       (flag 0 = `None`), `2|3 h w d s` HBox|VBox, `4 h w d` Rule, `5 w st so sh sho` Glue,
-//!       `6 w` Kern, `7 p` Penalty, `8` Discretionary, `9` Whatsit.
-//!   `tx <width> <text>`                 text through the real cmr10 `TextPreprocessorImpl`
-//!       (chars, ligatures, kerns, glue), packed with the real `TfmFontRepo`; the font's
-//!       answers are read through the `FontRepo` trait and handed to the model.
+//!       `6 w` Kern, `7 p` Penalty, `8` Discretionary, `9` Whatsit,
+//!       `10|11 code font` Char|Ligature with character code `'a' + code` in font `font` of the
+//!       harness's own four-font table `table_metric` (same code, different metrics per font;
+//!       some characters missing in some fonts, some without height and/or depth). The
+//!       harness measures these per (font, code) itself and hands the dimensions to Lean in
+//!       the `0|1` form; the real `pack` must ask the font repository for every node.
+//!   `tx <width> <text>`                 text through the real `TextPreprocessorImpl` with two
+//!       real fonts (0 = cmr10, 1 = cmss8; a word prefix `@0`/`@1` switches font, a following
+//!       `+` joins the word to the previous one without a space), giving chars, ligatures,
+//!       kerns, glue; packed with the real `TfmFontRepo`; the fonts' answers are read per
+//!       (char, font) through the `FontRepo` trait and handed to the model.
 //!   `un <k>`                            Mark/Insertion/Adjust/Math: `todo!()` (outside the
 //!       quantifier; observed and tagged, never a failure).
 //!
@@ -70,6 +77,7 @@ fn arity(tag: i64) -> usize {
         5 => 6,
         6 | 7 => 2,
         8 | 9 => 1,
+        10 | 11 => 3,
         t => panic!("bad item tag {t}"),
     }
 }
@@ -86,20 +94,71 @@ fn split_items(mut v: &[i64], n: usize) -> Vec<Vec<i64>> {
 }
 
 fn item_name(tag: i64) -> &'static str {
-    ["char", "ligature", "hbox", "vbox", "rule", "glue", "kern", "penalty", "discretionary", "whatsit"][tag as usize]
+    [
+        "char", "ligature", "hbox", "vbox", "rule", "glue", "kern", "penalty", "discretionary", "whatsit",
+        "char(font table)", "ligature(font table)",
+    ][tag as usize]
 }
 
 fn sc(i: i64) -> Scaled {
     Scaled(i32::try_from(i).expect("case value outside i32"))
 }
 
+const TABLE_FONTS: i64 = 4;
+const TABLE_CODES: i64 = 6;
+
+/// The harness's own fonts: `[width, height, depth]` of character `'a' + code` in font `font`
+/// (sp), `None` = the font does not answer. For one code the fonts differ in all three
+/// dimensions; in every font some characters are missing (no width), some have a width but
+/// no height, no depth, or neither.
+fn table_metric(font: i64, code: i64) -> [Option<i64>; 3] {
+    assert!((0..TABLE_FONTS).contains(&font) && (0..TABLE_CODES).contains(&code), "font/code outside the table");
+    let w = (3 + 2 * code + 5 * font) * 65536 + 4321 * font + 17 * code;
+    let h = ((font + 1) * (code + 2)) * 65536 - 1000 * font;
+    let d = ((3 - font) * 65536 + (code * 65536) / 2 + 99 * font) * ((code + font) % 2 + 1);
+    if (font + code) % 5 == 4 {
+        return [None, Some(h), Some(d)]; // missing character: height/depth answers are irrelevant
+    }
+    match (2 * font + code) % 7 {
+        3 => [Some(w), None, Some(d)],
+        5 => [Some(w), Some(h), None],
+        6 => [Some(w), None, None],
+        _ => [Some(w), Some(h), Some(d)],
+    }
+}
+
+fn table_char(code: i64) -> char {
+    (b'a' + code as u8) as char
+}
+
+/// Items as Lean gets them: glyphs of the font table measured here, per (font, code).
+fn measured(items: &[Vec<i64>]) -> Vec<Vec<i64>> {
+    items
+        .iter()
+        .map(|it| match it[0] {
+            10 | 11 => {
+                let m = table_metric(it[2], it[1]);
+                let f = |x: Option<i64>| [x.is_some() as i64, x.unwrap_or(0)];
+                let (w, h, d) = (f(m[0]), f(m[1]), f(m[2]));
+                vec![it[0] - 10, w[0], w[1], h[0], h[1], d[0], d[1]]
+            }
+            _ => it.clone(),
+        })
+        .collect()
+}
+
 /// The real list for a case, and the font that answers as the case says.
 fn build(items: &[Vec<i64>]) -> (Vec<ds::Horizontal>, CaseFont) {
     let mut font = CaseFont::default();
-    // a character that *has* metrics, used inside discretionaries and nested boxes: it must
-    // not contribute
-    let inner = ds::Char { char: 'Q', font: 9 };
-    font.m.insert(('Q', 9), [Some(Scaled(7 << 16)), Some(Scaled(9 << 16)), Some(Scaled(3 << 16))]);
+    for f in 0..TABLE_FONTS {
+        for c in 0..TABLE_CODES {
+            let m = table_metric(f, c);
+            font.m.insert((table_char(c), f as u32), [m[0].map(sc), m[1].map(sc), m[2].map(sc)]);
+        }
+    }
+    // a character that *has* metrics (and whose code also occurs in the list proper), used
+    // inside discretionaries and nested boxes: it must not contribute
+    let inner = ds::Char { char: 'a', font: 2 };
     let mut l: Vec<ds::Horizontal> = vec![];
     for (idx, it) in items.iter().enumerate() {
         match it[0] {
@@ -118,6 +177,23 @@ fn build(items: &[Vec<i64>]) -> (Vec<ds::Horizontal>, CaseFont) {
                             original_chars: "fi".into(),
                             includes_left_boundary: idx % 2 == 0,
                             includes_right_boundary: false,
+                        }
+                        .into(),
+                    );
+                }
+            }
+            10 | 11 => {
+                let (char, fnt) = (table_char(it[1]), it[2] as u32);
+                if it[0] == 10 {
+                    l.push(ds::Char { char, font: fnt }.into());
+                } else {
+                    l.push(
+                        ds::Ligature {
+                            char,
+                            font: fnt,
+                            original_chars: "ff".into(),
+                            includes_left_boundary: false,
+                            includes_right_boundary: idx % 2 == 1,
                         }
                         .into(),
                     );
@@ -242,7 +318,7 @@ fn glue(w: i64, st: i64, so: i64, sh: i64, sho: i64) -> Vec<i64> {
 /// at the boundaries (plain sums; the checked quantities come from Lean).
 fn gen_sums(items: &[Vec<i64>]) -> (i64, [i64; 4], [i64; 4]) {
     let (mut nat, mut st, mut sh) = (0i64, [0i64; 4], [0i64; 4]);
-    for it in items {
+    for it in &measured(items) {
         match it[0] {
             0 | 1 => {
                 if it[1] != 0 {
@@ -307,7 +383,22 @@ fn amount(rng: &mut Rng) -> i64 {
     }
 }
 
-fn random_item(rng: &mut Rng, last_glue: &Option<Vec<i64>>) -> Vec<i64> {
+/// A glyph of the font table; with a previous glyph, mostly the same code in another font.
+fn table_glyph(rng: &mut Rng, last_glyph: &Option<Vec<i64>>) -> Vec<i64> {
+    let tag = 10 + rng.below(2) as i64;
+    match last_glyph {
+        Some(g) if rng.chance(2, 3) => {
+            let font = if rng.chance(5, 6) { (g[2] + 1 + rng.below(TABLE_FONTS as u64 - 1) as i64) % TABLE_FONTS } else { g[2] };
+            vec![tag, g[1], font]
+        }
+        _ => vec![tag, rng.below(TABLE_CODES as u64) as i64, rng.below(TABLE_FONTS as u64) as i64],
+    }
+}
+
+fn random_item(rng: &mut Rng, last_glue: &Option<Vec<i64>>, last_glyph: &Option<Vec<i64>>) -> Vec<i64> {
+    if rng.chance(1, 5) {
+        return table_glyph(rng, last_glyph);
+    }
     match rng.below(20) {
         0 | 1 => {
             let fw = rng.chance(9, 10) as i64;
@@ -352,10 +443,32 @@ fn random_case(rng: &mut Rng, max_len: u64) -> String {
     let n = rng.below(max_len + 1);
     let mut items = vec![];
     let mut last_glue = None;
+    let mut last_glyph = None;
+    // every fourth list is text-like: glyphs of the font table with glue, kerns, penalties,
+    // discretionaries in between
+    let texty = rng.chance(1, 4);
     for _ in 0..n {
-        let it = random_item(rng, &last_glue);
+        let it = if texty {
+            match rng.below(10) {
+                0..=5 => table_glyph(rng, &last_glyph),
+                6 => vec![6, amount(rng)],
+                7 => {
+                    if rng.chance(1, 2) {
+                        vec![7, rng.range(-10001, 10001)]
+                    } else {
+                        vec![8]
+                    }
+                }
+                _ => glue(amount(rng), amount(rng), 0, amount(rng), 0),
+            }
+        } else {
+            random_item(rng, &last_glue, &last_glyph)
+        };
         if it[0] == 5 {
             last_glue = Some(it.clone());
+        }
+        if it[0] >= 10 {
+            last_glyph = Some(it.clone());
         }
         items.push(it);
     }
@@ -381,14 +494,16 @@ struct C15 {
 impl C15 {
     fn real_font(&mut self, repo: &str) -> &mut (boxworks_text::TextPreprocessorImpl, boxworks_text::TfmFontRepo) {
         if self.tfm.is_none() {
-            let bytes = std::fs::read(format!("{repo}/crates/tfm/corpus/computer-modern/cmr10.tfm")).expect("cmr10.tfm");
-            let mut f = tfm::File::deserialize(&bytes).0.expect("cmr10 parses");
-            let prog = tfm::ligkern::CompiledProgram::compile_from_tfm_file(&mut f).0;
             let mut tp = boxworks_text::TextPreprocessorImpl::new(boxworks_text::Params::plain_tex_defaults());
-            tp.register_font(0, &f, prog);
-            tp.activate_font(0);
             let mut fr = boxworks_text::TfmFontRepo::default();
-            fr.register_font(0, f);
+            for (id, name) in ["cmr10", "cmss8"].iter().enumerate() {
+                let bytes = std::fs::read(format!("{repo}/crates/tfm/corpus/computer-modern/{name}.tfm")).expect("tfm file");
+                let mut f = tfm::File::deserialize(&bytes).0.expect("tfm parses");
+                let prog = tfm::ligkern::CompiledProgram::compile_from_tfm_file(&mut f).0;
+                tp.register_font(id as u32, &f, prog);
+                fr.register_font(id as u32, f);
+            }
+            tp.activate_font(0);
             self.tfm = Some((tp, fr));
         }
         self.tfm.as_mut().unwrap()
@@ -561,7 +676,13 @@ impl C15 {
         let b = |k: &str| field(&reply, k) == "1";
         if !b("is") {
             let (dims, ord, rat) = (b("dims"), b("ord"), b("rat"));
-            let sig = if swapcand {
+            // The three repaired defects keep their signatures, but only where the real
+            // output is exactly what the unpatched code produced (`hpackOld`); anything
+            // else is described by the clauses that fail.
+            let is_old = r.v[..] == old[..];
+            let sig = if !is_old {
+                format!("differs from TeX: dims={} order={} ratio={}", dims as u8, ord as u8, rat as u8)
+            } else if swapcand {
                 "box/rule: width and height exchanged".to_string()
             } else if dims && zhi && (!ord || !rat) {
                 "glue order with zero total kept: order/ratio differ from TeX".to_string()
@@ -603,7 +724,10 @@ impl Property for C15 {
         "hp: boundary corpus (C15-a/b witnesses, empty list, every item kind alone); exhaustive: every list of length ≤ 3 (thorough: ≤ 4) over a 12-item alphabet \
          (glue with zero / cancelling / negative amounts at mixed orders, kern, shifted box, char, penalty) × 9 additional widths; random: lists ≤ 12 (thorough ≤ 30) items of all ten kinds, \
          amounts boundary-heavy, glue that cancels its predecessor, zero-amount infinite glue, target = natural ± {0, 1sp, 1pt, total[o], total[o] ± 1sp} for every order's stretch and shrink total, exact and additional; \
-         tx: words through the cmr10 text preprocessor packed with the real TfmFontRepo. \
+         glyphs: explicit per-node font answers (unique codes) and a four-font x six-code harness font table in which the same character code has different width/height/depth per font, \
+         is missing in some fonts and lacks height and/or depth in others; lists repeat a code across fonts adjacent and separated by glue/kern/penalty/discretionary/whatsit/box, as Char and as Ligature \
+         (corpus: every code x ordered font pair x 8 separators); the harness measures per (font, code) itself; \
+         tx: words through the real text preprocessor with two real fonts (cmr10, cmss8; font switches inside and between words, repeated letters across the switch) packed with the real TfmFontRepo. \
          Non-trivial = non-empty list and every intermediate value inside i32 (otherwise out of the quantifier, tagged out-of-range); distinct = distinct case string."
             .into()
     }
@@ -659,11 +783,53 @@ impl Property for C15 {
         for (m, a) in targets(&all) {
             v.push(enc_case(m, a, &all));
         }
+        // the same character code in different fonts of the font table: adjacent, separated
+        // by each kind of non-glyph node, Char/Ligature in both orders, a character missing
+        // in the first or in the second font, width without height/depth
+        {
+            let sep: Vec<Vec<Vec<i64>>> = vec![
+                vec![],
+                vec![glue(3 * pt, pt, 0, pt, 0)],
+                vec![vec![6, pt]],
+                vec![vec![7, 100]],
+                vec![vec![8]],
+                vec![vec![9]],
+                vec![vec![2, 2 * pt, 3 * pt, pt, 0]],
+                vec![glue(pt, pt, 1, 0, 0), vec![6, -pt], vec![7, 0], vec![8]],
+            ];
+            for code in 0..TABLE_CODES {
+                for f1 in 0..TABLE_FONTS {
+                    for f2 in 0..TABLE_FONTS {
+                        if f1 == f2 {
+                            continue;
+                        }
+                        for (k, s) in sep.iter().enumerate() {
+                            let (t1, t2) = match (code + f1 + f2 + k as i64) % 4 {
+                                0 => (10, 10),
+                                1 => (10, 11),
+                                2 => (11, 10),
+                                _ => (11, 11),
+                            };
+                            let mut items = vec![vec![t1, code, f1]];
+                            items.extend(s.iter().cloned());
+                            items.push(vec![t2, code, f2]);
+                            let a = [0, pt, -pt][(code + k as i64) as usize % 3];
+                            v.push(enc_case(1, a, &items));
+                        }
+                    }
+                }
+            }
+            // three fonts in a row, and a repeat of the very same (code, font)
+            v.push(enc_case(1, 0, &[vec![10, 0, 0], vec![10, 0, 1], vec![10, 0, 2], vec![10, 0, 3], vec![10, 0, 3]]));
+            v.push(enc_case(0, 100 * pt, &[vec![10, 5, 0], glue(pt, pt, 0, pt, 0), vec![11, 5, 1], vec![10, 5, 2]]));
+        }
         for k in 0..4 {
             v.push(format!("un {k}"));
         }
         v.push("tx 6553600 office fluffy AV find the difficult waffle".into());
         v.push("tx 65536 office fluffy AV find the difficult waffle".into());
+        v.push("tx 6553600 a @1+a @0+a @1a f @0fi @1+ff office @1+e".into());
+        v.push("tx 0 a @1+a".into());
         v
     }
     fn generate(&mut self, ctx: &Ctx, rng: &mut Rng) -> Vec<String> {
@@ -682,6 +848,9 @@ impl Property for C15 {
             vec![2, 3, 4, 1, 2],
             vec![0, 1, 2, 1, 7, 0, 0],
             vec![7, 0],
+            vec![10, 0, 0],
+            vec![10, 0, 1],
+            vec![11, 0, 2],
         ];
         let max = if ctx.thorough { 4 } else { 3 };
         let adds: &[i64] = &[0, 1, -1, 2, -2, 3, -3, 5, -5];
@@ -719,7 +888,26 @@ impl Property for C15 {
         }
         for _ in 0..n_tx {
             let n = rng.range(1, 7);
-            let words: Vec<&str> = (0..n).map(|_| *rng.pick(WORDS)).collect();
+            let mut words: Vec<String> = vec![];
+            for _ in 0..n {
+                let w = *rng.pick(WORDS);
+                let prefix = match rng.below(6) {
+                    0 => "@1",
+                    1 => "@0",
+                    2 => "@1+",
+                    3 => "@0+",
+                    _ => "",
+                };
+                // after a switch, often repeat the last character of the previous word
+                let w = match (prefix.is_empty(), words.last()) {
+                    (false, Some(prev)) if rng.chance(2, 3) => {
+                        let c = prev.chars().last().unwrap();
+                        format!("{c}{w}")
+                    }
+                    _ => w.to_string(),
+                };
+                words.push(format!("{prefix}{w}"));
+            }
             let w = match rng.below(4) {
                 0 => rng.range(0, 400) * 65536,
                 1 => rng.range(0, 30_000_000),
@@ -741,7 +929,19 @@ impl Property for C15 {
                 let (list, font) = build(&items);
                 let real = run_real(&font, list, mode, amt);
                 out.tag("stream=hp");
-                self.compare(mode, amt, &items, real, drv, "hp", out)
+                // the same code in another font (with different answers) after a glyph
+                let glyphs: Vec<(usize, &Vec<i64>)> = items.iter().enumerate().filter(|(_, it)| it[0] >= 10).collect();
+                for w in glyphs.windows(2) {
+                    let ((i, a), (j, b)) = (w[0], w[1]);
+                    if a[1] == b[1] && a[2] != b[2] && table_metric(a[2], a[1]) != table_metric(b[2], b[1]) {
+                        out.tag(if j == i + 1 { "glyph:same-code-other-font:adjacent" } else { "glyph:same-code-other-font:separated" });
+                        let (ma, mb) = (table_metric(a[2], a[1]), table_metric(b[2], b[1]));
+                        if ma[0].is_none() != mb[0].is_none() {
+                            out.tag("glyph:same-code-other-font:one-missing");
+                        }
+                    }
+                }
+                self.compare(mode, amt, &measured(&items), real, drv, "hp", out)
             }
             "tx" => {
                 let (w, text) = rest.split_once(' ').unwrap_or((rest, ""));
@@ -749,7 +949,49 @@ impl Property for C15 {
                 let repo = self.repo.clone();
                 let (tp, fr) = self.real_font(&repo);
                 let mut list = vec![];
-                boxworks::TextPreprocessor::add_text(tp, text, &mut list);
+                {
+                    use boxworks::TextPreprocessor;
+                    tp.new_paragraph();
+                    tp.activate_font(0);
+                    let mut first = true;
+                    for word in text.split_ascii_whitespace() {
+                        let mut word = word;
+                        let mut join = false;
+                        if let Some(r) = word.strip_prefix("@0") {
+                            tp.activate_font(0);
+                            word = r;
+                        } else if let Some(r) = word.strip_prefix("@1") {
+                            tp.activate_font(1);
+                            word = r;
+                        }
+                        if let Some(r) = word.strip_prefix('+') {
+                            join = true;
+                            word = r;
+                        }
+                        if !first && !join {
+                            tp.add_space(&mut list);
+                        }
+                        tp.add_word(word, &mut list);
+                        first = false;
+                    }
+                }
+                for w in list.windows(3) {
+                    use ds::Horizontal as H;
+                    let cf = |e: &H| match e {
+                        H::Char(c) => Some((c.char, c.font)),
+                        H::Ligature(l) => Some((l.char, l.font)),
+                        _ => None,
+                    };
+                    if let (Some(a), Some(b)) = (cf(&w[0]), cf(&w[1])) {
+                        if a.0 == b.0 && a.1 != b.1 {
+                            out.tag("tx:same-code-other-font:adjacent");
+                        }
+                    } else if let (Some(a), None, Some(b)) = (cf(&w[0]), cf(&w[1]), cf(&w[2])) {
+                        if a.0 == b.0 && a.1 != b.1 {
+                            out.tag("tx:same-code-other-font:separated");
+                        }
+                    }
+                }
                 let items = encode_real_list(&*fr, &list).expect("text lists contain chars, ligatures, kerns, glue");
                 let fr: &boxworks_text::TfmFontRepo = &self.tfm.as_ref().unwrap().1;
                 let real = run_real(fr, list, 0, w);
